@@ -53,21 +53,25 @@ def run(ctx):
             return core and rng.random() < 0.3
         return core or rng.random() < 0.12
 
+    rows = hists
     hists = [h for h in hists if keep(h)]
-    # sequences: a refused request must not disturb what follows (2-3 operations on one blob)
-    g2 = ctx.instance("G2_Guard", "Guard", gen_cfg,
-                      {"Configs": keyed, "TokDims": 1, "Forms": {"plain", "suffix"}, "Vias": {"bearer"},
-                       "MaxOps": 3 if ctx.thorough else 2})
-    seqs = ctx.generate(g2, workers=4, simulate=3000 if ctx.thorough else 400,
-                        depth=5 if ctx.thorough else 4)
-    hists += [h for h in seqs if len(h) >= 3]
+    # sequences: a refused request must not disturb what follows - 2-4 table rows (same key configuration)
+    # applied to one blob, seeded random composition of the TLC-enumerated rows
+    by_cfg = {}
+    for h in rows:
+        if h[0]["cfg"] != {"w": "", "r": ""}:
+            by_cfg.setdefault(json.dumps(h[0]["cfg"], sort_keys=True), []).append(h)
+    for _ in range(3000 if ctx.thorough else 500):
+        pool = by_cfg[rng.choice(sorted(by_cfg))]
+        first = rng.choice(pool)
+        hists.append([first[0]] + [rng.choice(pool)[1] for _ in range(rng.randint(2, 4))])
     if ctx.thorough:
         # two dimensions of the token varied at once (seeded sample of the enumeration)
         g3 = ctx.instance("G3_Guard", "Guard", gen_cfg,
                           {"Configs": keyed, "TokDims": 2, "Forms": {"plain", "ext", "path"}, "Vias": {"query", "bearer"},
                            "MaxOps": 1})
         two = [h for h in ctx.generate(g3, workers=4) if h[0]["present"]]
-        hists += rng.sample(two, min(len(two), 12000))
+        hists += rng.sample(two, min(len(two), 6000))
 
     script = os.path.join(ctx.out, "script.ndjson")
     if ctx.replay:
@@ -92,7 +96,7 @@ def run(ctx):
     def mutate(evs):
         # a request that was refused is turned into one that got through
         for i, e in enumerate(evs):
-            if e["ev"] == "op" and e["res"]["cls"] == "denied":
+            if e["ev"] == "op" and e["res"]["cls"] == "denied" and e["tok"]["shape"] == "missing":
                 m = json.loads(json.dumps(evs))
                 m[i]["res"].update({"cls": "ok", "st": 200})
                 return m
@@ -105,7 +109,7 @@ def run(ctx):
     def mutate2(evs):
         # a refused request that nevertheless changed the volume
         for i, e in enumerate(evs):
-            if e["ev"] == "op" and e["res"]["cls"] == "denied":
+            if e["ev"] == "op" and e["res"]["cls"] == "denied" and e["tok"]["claim"] == "otherkey":
                 m = json.loads(json.dumps(evs))
                 m[i]["res"]["changed"] = True
                 return m
